@@ -1,4 +1,4 @@
-import Tickit.Proof.EvLoop
+import Tickit.Proof.EvLoopSig
 import Tickit.Gen.EvLoop
 /-
   C18 — A delivered signal or ready descriptor always reaches its watchers.   (claimed: partial)
@@ -14,6 +14,9 @@ import Tickit.Gen.EvLoop
     `signal_dispatch_not_suppressed`     repaired evloop_run: an interrupted wait is followed by dispatch_signals
                                           whatever the timer / deferred callbacks did (to errno or otherwise);
     `signal_dispatch_depends_on_errno`   shipped: it is followed by dispatch iff the callbacks left errno = EINTR;
+    `signal_reaches_watchers`            the walk of tickit_evloop_invoke_sigwatches skips nobody: every watch in the
+                                          list at its start and not cancelled meanwhile is visited, whatever callbacks
+                                          register or cancel; `signal_watchers_in_order`: in list (registration) order;
     `io_exact_conditions_*`              the entry's revents are translated bit for bit, the kernel's report is
                                           stored exactly, a slot handed out by the repaired evloop_io reports nothing;
     `cancelled_not_invoked`              a cancelled entry is skipped.
@@ -78,6 +81,46 @@ theorem signal_dispatch_depends_on_errno (fuel : Nat) (st : St) (hs : st.cfg.err
     tickAfterPoll fuel st none =
       if (invokeTimers fuel st).errno = EINTR then dispatchSignals fuel (invokeTimers fuel st) else invokeTimers fuel st :=
   tickAfterPoll_eintr_shipped fuel st hs hok
+
+/-! ### every watcher, in list order -/
+
+/-- In every reachable state, under any variant of the source, the list of signal watches holds
+    distinct allocated watches. -/
+theorem signal_watch_list_invariant (cfg : Config) (ops : List Op) : SInv (runOps cfg ops) := sinv_runOps cfg ops
+
+/-- Whatever a signal callback does (register, cancel, raise, set errno, …; `on_sigchld` included), only
+    fresh watches enter the list, a watch leaves it only by being freed, and the others keep their order. -/
+theorem signal_callback_respects_list (fuel : Nat) (st : St) (a : Nat) (s : Int) : SigStep st (sigCb fuel st a s) :=
+  step_sigCb fuel st a s
+
+/-- `tickit_evloop_invoke_sigwatches` skips nobody: a walk from the head of the list that returns normally
+    has visited — i.e. has evaluated `if(this->signal.signum == signum) (*this->fn)(…)` for — every watch
+    that was in the list when it started and is still in the list when it returns (was not cancelled
+    meanwhile), whatever the callbacks it ran registered or cancelled. -/
+theorem signal_reaches_watchers (fuel : Nat) (st : St) (s : Int) (i : SInv st)
+    (hok : (sigwatchLoopT fuel st s st.signals.head?).1.status = .ok) :
+    ∀ b ∈ st.signals, b ∈ (sigwatchLoopT fuel st s st.signals.head?).1.signals →
+      b ∈ (sigwatchLoopT fuel st s st.signals.head?).2 := by
+  intro b hb hfin
+  apply sigwalk_complete fuel st s st.signals.head? i hok b hfin
+  cases hl : st.signals with
+  | nil => rw [hl] at hb; cases hb
+  | cons h t =>
+    refine ⟨h, rfl, List.mem_cons_self, ?_⟩
+    rw [hl] at hb
+    simp only [List.mem_cons] at hb
+    rw [aft_cons_self]
+    exact hb
+
+/-- … and in list order (registration order, BIND_FIRST registrations first): of two watches of the
+    original list the one visited first is the one that stood first. -/
+theorem signal_watchers_in_order (fuel : Nat) (st : St) (s : Int) (i : SInv st) :
+    (sigwatchLoopT fuel st s st.signals.head?).2.Pairwise
+      (fun x y => x ∈ st.signals → y ∈ st.signals → y ∈ aft x st.signals) :=
+  (sigwalk_ordered fuel st s st.signals.head? i (fun a ha => List.mem_of_mem_head? ha)).2.2
+
+example : (sigwatchLoopT 100 (runOps .repaired [.beh ⟨0, 0, [.cancel 1, .signal 3 23 0]⟩, .act (.signal 0 23 0),
+      .act (.signal 1 23 0), .act (.signal 2 23 1)]) 23 (some 4)).2 = [4, 1, 2, 5] := by decide +kernel
 
 /-! ### descriptors -/
 
@@ -175,14 +218,17 @@ theorem signal_self_cancel_counterexample (cfg : Config) (h : cfg = .shipped ∨
 
 /-! ### statements of the property that are not proved (engines.d/C18.json: open_statements) -/
 
-/-- Every watcher, in registration order, exactly once per delivery — with callbacks that register and
-    cancel signal watches while the list is walked (the executable specification checks this on every
-    explored history; proved here is that dispatch happens, not what the walk visits). -/
+/-- The same, read off the callback log of a whole iteration under the repaired source: every live
+    watcher of a signal the handler recorded during the wait appears in the log of that iteration.
+    (Proved: the wait records every pending signal; dispatch follows an interrupted wait whatever the
+    callbacks did; the walk skips nobody and keeps list order.  Not proved: the bookkeeping that turns
+    "visited" into "has an entry in `log`", and the composition over the `for(signum …)` loop.) -/
 def signal_reaches_watchers_full : Prop :=
-  ∀ (fuel : Nat) (st : St) (s : Int), st.isOk = true →
-    ∀ a ∈ st.signals, (st.getW a).signum = s → (st.getW a).slot ≥ 0 →
-      (sigwatchLoop fuel st s st.signals.head?).status = .ok →
-      ∃ e ∈ (sigwatchLoop fuel st s st.signals.head?).log, e = Ev.cb (st.getW a).slot EV_FIRE .none
+  ∀ (fuel : Nat) (st : St) (nohang : Bool), st.cfg = .repaired → (tick fuel st nohang).status = .ok →
+    ∀ s ∈ st.kpending, ∀ a ∈ (tick fuel st nohang).signals, a ∈ st.signals →
+      ((tick fuel st nohang).getW a).signum = s → ((tick fuel st nohang).getW a).slot ≥ 0 →
+      (∀ fd ∈ st.ready, fd.2 = 0) →
+      Ev.cb ((tick fuel st nohang).getW a).slot EV_FIRE .none ∈ (tick fuel st nohang).log
 
 /-- End to end for descriptors under the repaired source: in one iteration every invocation of an io
     watch carries `condOfRevents (pollRevents …)` of *its own* entry as scanned by this iteration's wait. -/
